@@ -45,11 +45,17 @@ func (p *Profile) FilterSamplesByName(focus, ignore, hide, show *regexp.Regexp) 
 			}
 		}
 		if show != nil {
-			l.Line = l.matchedLines(show)
-			if len(l.Line) == 0 {
-				hidden[l.ID] = true
-			} else {
+			if len(l.Line) == 0 && !hidden[l.ID] && l.matchesName(show) {
+				// A location without symbol information is shown when
+				// its binary matches, there are no lines to select.
 				hnm = true
+			} else {
+				l.Line = l.matchedLines(show)
+				if len(l.Line) == 0 {
+					hidden[l.ID] = true
+				} else {
+					hnm = true
+				}
 			}
 		}
 	}
